@@ -266,7 +266,14 @@ func (f *DefaultFanController) UpdateFanSpeed() error {
 func (f *DefaultFanController) RunInitializationSequence() (err error) {
 	fan := f.fan
 
-	err1 := f.computePwmMap()
+	// the whole sequence (pwm map computation and rpm curve measurement) must
+	// not overlap with the initialization of another fan
+	if !configuration.CurrentConfig.RunFanInitializationInParallel {
+		InitializationSequenceMutex.Lock()
+		defer InitializationSequenceMutex.Unlock()
+	}
+
+	err1 := f.computePwmMapLocked()
 	if err1 != nil {
 		ui.Warning("Error computing PWM map: %v", err1)
 	}
@@ -587,6 +594,11 @@ func (f *DefaultFanController) computePwmMap() (err error) {
 		defer InitializationSequenceMutex.Unlock()
 	}
 
+	return f.computePwmMapLocked()
+}
+
+// computePwmMapLocked is computePwmMap for callers that already hold the InitializationSequenceMutex
+func (f *DefaultFanController) computePwmMapLocked() (err error) {
 	var configOverride *map[int]int
 
 	switch f := f.fan.(type) {
